@@ -52,15 +52,17 @@ fn catch<T>(f: impl FnOnce() -> T) -> Option<T> {
     std::panic::catch_unwind(std::panic::AssertUnwindSafe(f)).ok()
 }
 
-/// Runs `f` with fd 2 redirected into `file`; returns f's result and the captured bytes.
-fn with_stderr<T>(file: &Path, f: impl FnOnce() -> T) -> (T, Vec<u8>) {
+/// Runs `f` with file descriptor `fd` redirected into `file`; returns f's result and the captured bytes.
+fn with_fd<T>(fd: i32, file: &Path, f: impl FnOnce() -> T) -> (T, Vec<u8>) {
+    use std::io::Write;
     use std::os::unix::io::AsRawFd;
-    let out = std::fs::File::create(file).expect("stderr file");
-    let saved = unsafe { libc::dup(2) };
-    unsafe { libc::dup2(out.as_raw_fd(), 2) };
+    let out = std::fs::File::create(file).expect("capture file");
+    let saved = unsafe { libc::dup(fd) };
+    unsafe { libc::dup2(out.as_raw_fd(), fd) };
     let r = catch(f);
+    let _ = std::io::stdout().flush();
     unsafe {
-        libc::dup2(saved, 2);
+        libc::dup2(saved, fd);
         libc::close(saved);
     }
     drop(out);
@@ -70,6 +72,10 @@ fn with_stderr<T>(file: &Path, f: impl FnOnce() -> T) -> (T, Vec<u8>) {
         Some(v) => (v, bytes),
         None => std::panic::resume_unwind(Box::new("inner")),
     }
+}
+
+fn with_stderr<T>(file: &Path, f: impl FnOnce() -> T) -> (T, Vec<u8>) {
+    with_fd(2, file, f)
 }
 
 fn count_reports(bytes: &[u8]) -> u128 {
@@ -155,23 +161,29 @@ fn accessors(cfg: &Config) -> Val {
 }
 
 /// Install in a non-global Logger, log the probes, drop; false when anything panicked.
-fn drive(cfg: Config, probes: &[Val]) -> bool {
+/// stdout / stderr are captured into `@stdout` / `@stderr` below `dir` (console appenders, error handler),
+/// which also keeps the harness protocol on stdout clean.
+fn drive(cfg: Config, probes: &[Val], dir: &Path) -> bool {
     catch(|| {
-        let logger = log4rs::Logger::new(cfg);
-        for p in probes {
-            let p = p.l();
-            let t = p[0].str();
-            let m = p[2].str();
-            logger.log(
-                &log::Record::builder()
-                    .level(level(p[1].n()))
-                    .target(&t)
-                    .args(format_args!("{}", m))
-                    .build(),
-            );
-        }
-        Log::flush(&logger);
-        drop(logger);
+        with_fd(1, &dir.join("@stdout"), || {
+            with_fd(2, &dir.join("@stderr"), || {
+                let logger = log4rs::Logger::new(cfg);
+                for p in probes {
+                    let p = p.l();
+                    let t = p[0].str();
+                    let m = p[2].str();
+                    logger.log(
+                        &log::Record::builder()
+                            .level(level(p[1].n()))
+                            .target(&t)
+                            .args(format_args!("{}", m))
+                            .build(),
+                    );
+                }
+                Log::flush(&logger);
+                drop(logger);
+            })
+        })
     })
     .is_some()
 }
@@ -220,7 +232,7 @@ fn run_doc(root: &Path, k: usize, ext: &str, text: &str, probes: &[Val], files: 
         Some((Err(_), _)) => (0, Val::L(vec![]), 0, Val::L(vec![])),
         Some((Ok(cfg), bytes)) => {
             let acc = accessors(&cfg);
-            let ok = drive(cfg, probes);
+            let ok = drive(cfg, probes, &dir);
             (if ok { 1 } else { 3 }, acc, count_reports(&bytes), behaviour(&dir))
         }
     };
@@ -363,7 +375,7 @@ fn mk_appender(v: &Val, dir: &str) -> anyhow::Result<Box<dyn Append>> {
 }
 
 fn run_prog(root: &Path, lc: &Val, probes: &[Val], files: &[Val]) -> Val {
-    let dir = root.join("prog");
+    let dir = root.join("dpp"); // same length as the per-document directories (paths may appear in output)
     prepare(&dir, files);
     let ds = dir.to_string_lossy().to_string();
     let lc = lc.l();
@@ -396,7 +408,7 @@ fn run_prog(root: &Path, lc: &Val, probes: &[Val], files: &[Val]) -> Val {
         Some(Err(_)) => Val::L(vec![Val::N(0), Val::L(vec![]), Val::N(0), Val::L(vec![])]),
         Some(Ok(cfg)) => {
             let acc = accessors(&cfg);
-            let ok = drive(cfg, probes);
+            let ok = drive(cfg, probes, &dir);
             Val::L(vec![Val::N(if ok { 1 } else { 3 }), acc, Val::N(0), behaviour(&dir)])
         }
     }
@@ -405,6 +417,8 @@ fn run_prog(root: &Path, lc: &Val, probes: &[Val], files: &[Val]) -> Val {
 fn run(case: &Val) -> Val {
     let c = case.l();
     let root = tempfile::tempdir().expect("tempdir");
+    // defensive: a relative path in a document must not escape the scratch area
+    let _ = std::env::set_current_dir(root.path());
     let probes = c[1].l();
     let files = c[2].l();
     let mut out = Vec::new();
